@@ -292,6 +292,27 @@ fn via_file(ctx: &mut Ctx, enc: Enc, _any: bool) {
             }
         }
     }
+    // a .dynamic section (and PT_DYNAMIC) with the entries a link editor writes for the version sections
+    if ctx.rng.chance(2, 3) {
+        use crate::gen::elf::{Seg, SegRange};
+        let mut entries: Vec<(u64, u64)> = vec![(1, 1), (0x6fff_fff0, 0x2000)];
+        if m.has_needs {
+            entries.push((0x6fff_fffe, 0x3000));
+            entries.push((0x6fff_ffff, m.needs.len() as u64));
+        }
+        if m.has_defs {
+            entries.push((0x6fff_fffc, 0x4000));
+            entries.push((0x6fff_fffd, m.defs.len() as u64));
+        }
+        ctx.rng.shuffle(&mut entries);
+        entries.push((0, 0));
+        let mut d = Sec::new(b".dynamic", k::SHT_DYNAMIC, crate::gen::object::dyn_bytes(enc, &entries));
+        d.entsize = crate::codec::size_of(crate::codec::St::Dyn, enc.c64) as u64;
+        d.link = verstr as u32;
+        let di = spec.add(d);
+        spec.segs.push(Seg { p_type: k::PT_DYNAMIC, flags: 6, range: SegRange::OfSection(di), vaddr: 0x5000, paddr: 0x5000, memsz_extra: 0, align: 8 });
+        ctx.count("via:with-.dynamic(DT_VERNEEDNUM/DT_VERDEFNUM)");
+    }
     let b = build(&spec, &mut ctx.rng);
     ctx.set_input(&b.bytes);
     ctx.sample(|| format!("{} object ({} bytes): needs={} defs={} versym={} scattered={}", enc.name(), b.bytes.len(), m.needs.len(), m.defs.len(), m.versym.len(), scattered));
